@@ -70,13 +70,24 @@ def scripts_for(b, svc, m, rng):
             f2 = (rng.random() < 0.5, rng.random() < 0.5, rng.random() < 0.5)
             out.append(("service-with-declared-name", {"kind": "service", "name": name, "message": "hand made", "timeout": f2[0], "temporary": f2[1], "fault": f2[2]},
                         ["R", hx(name), hx(name)] + ["1" if f else "0" for f in f2], {"name": name, "flags": f2, "message": "hand made"}))
-    out.append(("plain", {"kind": "plain", "message": "plain failure"}, ["R", "~", "~"], {"undeclared": True, "message": "plain failure"}))
+    out.append(("plain", {"kind": "plain", "message": "plain failure"}, ["R", "~", "~"], {"undeclared": True, "message": "plain failure", "spec_status": 500}))
     for t, tmp, f in itertools.product((False, True), repeat=3):
         kind = "wrapped-service" if (t ^ f) else "service"
         n = "zz_undeclared"
         out.append(("undeclared-" + kind, {"kind": kind, "name": n, "message": "undeclared", "timeout": t, "temporary": tmp, "fault": f},
-                    ["R", hx(n), hx(n)] + ["1" if x else "0" for x in (t, tmp, f)], {"undeclared": True, "message": "undeclared"}))
+                    ["R", hx(n), hx(n)] + ["1" if x else "0" for x in (t, tmp, f)],
+                    {"undeclared": True, "message": "undeclared", "spec_status": spec_status(t, tmp, f), "flags3": "%d%d%d" % (t, tmp, f)}))
     return out
+
+
+def spec_status(timeout, temporary, fault):
+    """The documented default mapping (http/error.go StatusCode; Props/C05.lean default_status_table states the same table
+    about the definition regenerated from /repo): independent of the regenerated definition the driver is compiled from."""
+    if fault:
+        return 500
+    if timeout:
+        return 504 if temporary else 408
+    return 503 if temporary else 400
 
 
 def judge(label, exp, model, o):
@@ -92,6 +103,9 @@ def judge(label, exp, model, o):
         out.append(("error/write-headers/" + label, "%s WriteHeader calls" % o.get("write_headers")))
     if str(w.get("status")) != mv["status"]:
         out.append(("error/status/" + label, "status %s on the wire, the model says %s" % (w.get("status"), mv["status"])))
+    if exp.get("spec_status") is not None and w.get("status") != exp["spec_status"]:
+        out.append(("error/undeclared-status/%s/flags=%s" % (label, exp.get("flags3", "plain")),
+                    "undeclared error (timeout/temporary/fault = %s) answered with status %s, the default mapping gives %s" % (exp.get("flags3", "plain"), w.get("status"), exp["spec_status"])))
     hdr = (w.get("resp_headers") or {}).get("Goa-Error")
     want_hdr = None if mv["header"] == "~" else bytes.fromhex(mv["header"]).decode()
     if want_hdr is not None and (hdr or [None])[0] != want_hdr:
@@ -148,10 +162,13 @@ def run(c):
     ]
     have = c.go_build("genrun", "gotolean")
     lean_ok = False
-    if c.gotolean("status", "TrStatus") and c.lake_build("GoaVerif.Props.C05"):
-        c.audit("C05")
-        if c.tier == "thorough":
-            c.leanchecker("C05")
+    if c.gotolean("status", "TrStatus"):
+        if c.lake_build("GoaVerif.Props.C05"):
+            c.audit("C05")
+            if c.tier == "thorough":
+                c.leanchecker("C05")
+        # the driver only needs the model and the regenerated definition: when a theorem no longer checks the
+        # exchanges below are the search for a failing input
         lean_ok = c.lake_build("drv_errmap", what="tie")
     if not (have and lean_ok):
         return
